@@ -1,7 +1,7 @@
 (* C11 — STBC container: total decoder, exact round trip, validated means safe. Pinned statements
    over Model/Stbc.v (frame decoding for arbitrary bytes, string-table codec, allocation). *)
 From Coq Require Import List Bool Arith NArith.
-From TP Require Import Model.Stbc Proofs.C11Proofs.
+From TP Require Import Model.Stbc Model.StbcEnc Proofs.C11Proofs Proofs.C11Frame.
 Import ListNotations.
 Open Scope N_scope.
 
@@ -27,6 +27,21 @@ Proof. exact strtab_capacity_bounded_l. Qed.
 Theorem unbounded_capacity_refuted :
   st_capacity (dec_strtab false huge_count) = 4294967295 /\ blen huge_count = 8 /\ st_entries (dec_strtab false huge_count) = None.
 Proof. exact strtab_capacity_unbounded. Qed.
+(* decoding an encoded frame reproduces it: the decoder accepts what the encoder writes, returns exactly the table the encoder
+   laid out, and the bytes at every table entry are the section payloads, identifiers and flags that were encoded *)
+Theorem decode_of_encoded_frame : forall crc minor flags ss, wf_frame minor flags ss ->
+  dec_frame crc (enc_frame 1 minor flags ss) =
+  Ok {| f_major := 1; f_minor := minor; f_flags := flags; f_entries := layout (first_offset (N.of_nat (length ss))) ss |}.
+Proof. exact dec_enc_frame_l. Qed.
+Theorem encoded_payloads_are_returned : forall minor flags ss,
+  Forall2 (fun e s => slice (enc_frame 1 minor flags ss) (e_off e) (e_len e) = s_data s /\ e_id e = s_id s /\ e_flags e = s_flags s)
+          (layout (first_offset (N.of_nat (length ss))) ss) ss.
+Proof. exact frame_payloads_l. Qed.
+Theorem c11_frame_nonvacuous :
+  let ss := [{| s_id := 1; s_flags := 0; s_data := [1; 0; 0; 0; 97; 0; 0; 0] |}; {| s_id := 7; s_flags := 2; s_data := [9; 9; 9] |}; {| s_id := 3; s_flags := 0; s_data := [] |}] in
+  wf_frame 1 0 ss /\ blen (enc_frame 1 1 0 ss) = 72 /\
+  map e_off (layout (first_offset 3) ss) = [60; 68; 72] /\ map e_len (layout (first_offset 3) ss) = [8; 3; 0].
+Proof. exact frame_demo. Qed.
 Theorem c11_nonvacuous : exists f, dec_frame (fun _ => 0) demo_frame = Ok f /\ map e_off (f_entries f) = [48; 56] /\ map e_len (f_entries f) = [6; 4].
 Proof. exact demo_frame_ok. Qed.
 Print Assumptions le32_round_trip.
@@ -34,3 +49,5 @@ Print Assumptions frame_sections_in_bounds.
 Print Assumptions strtab_round_trip.
 Print Assumptions strtab_capacity_bounded.
 Print Assumptions unbounded_capacity_refuted.
+Print Assumptions decode_of_encoded_frame.
+Print Assumptions encoded_payloads_are_returned.
